@@ -36,6 +36,7 @@ inductive Op (τ : Type)
   | add | sub | mul | div | mod | negate | inc | dec
   | not | boolAnd | boolOr
   | numEq | numNe | equal | notEqual | lt | le | gt | ge
+  | throw                  -- THROW: without a TRY context (the core has none) the exception is unhandled, FAULT
   deriving Repr, DecidableEq
 
 /-- Element.BigInt(): Integer as is, Boolean as 0/1, Null is an error. -/
@@ -290,6 +291,7 @@ def encode (long : Bool) : Op Int → Bytes
   | .not => [0xAA] | .boolAnd => [0xAB] | .boolOr => [0xAC]
   | .numEq => [0xB3] | .numNe => [0xB4] | .equal => [0x97] | .notEqual => [0x98]
   | .lt => [0xB5] | .le => [0xB6] | .gt => [0xB7] | .ge => [0xB8]
+  | .throw => [0x3A]
 
 def leInt (bs : Bytes) : Int :=
   let n : Nat := bs.foldr (fun b acc => acc * 256 + b.toNat) 0
@@ -343,6 +345,7 @@ def decode (bs : Bytes) : Option (Op Int × Nat) :=
     else if o == 0x98 then some (.notEqual, 1) else if o == 0xB5 then some (.lt, 1)
     else if o == 0xB6 then some (.le, 1) else if o == 0xB7 then some (.gt, 1)
     else if o == 0xB8 then some (.ge, 1)
+    else if o == 0x3A then some (.throw, 1)
     else none
 
 /-- one step of the byte machine (vm.go step/execute): jump offsets are relative to the instruction's own
